@@ -67,7 +67,9 @@ package agent
 //@   requires a.retryTarget != nil && retry_target_ok(a) && scheduler.nextNodeID > 0
 //@   modifies a.graph, heap(alloc), scheduler.nextNodeID, ghost obs.cycle, ghost obs.cycle_calls, ghost eff.env, ghost env.key, ghost env.val,
 //@            ghost outvar.stores, ghost outvar.key, ghost outvar.val, ghost rerun, heap(scheduler.Node)
-//@   ensures err == nil ==> (a.graph != nil && graph_ok(a.graph))
+//@   ensures [graph_nodes_exist] err == nil ==> (a.graph != nil && nodes_wf(a.graph))
+//@   ensures [graph_edges_point_to_nodes] err == nil ==> graph_wf(a.graph)
+//@   ensures [graph_nodes_are_indexed] err == nil ==> (forall i int :: 0 <= i && i < len(a.graph.nodes) ==> has(a.graph.dict, a.graph.nodes[i].id))
 //@   ensures [C10 retry_graph_is_the_recorded_node_table] err == nil ==> (len(a.graph.nodes) == len(a.retryTarget.Nodes) &&
 //@        (forall i int :: 0 <= i && i < len(a.retryTarget.Nodes) ==>
 //@           (a.graph.nodes[i].data.Step.Name == a.retryTarget.Nodes[i].Step.Name &&
